@@ -23,6 +23,11 @@ CLAIMED = {
         ref="DESIGN.md section 4 C04",
         note="both deployment flavours (generated impl Contract, generated entry points); the chain's own sudo / migrate / execute paths",
     ),
+    "C12": dict(
+        text="Twin chains from one seed: world P stores the programs through the generated CodeId::store_code and is driven only through generated proxies (instantiate with label / admin / funds / salt options, exec with and without funds, query, sudo, migrate; contract and interface proxies); world R stores the same programs behind fault links and is driven only through the raw operations with JSON text composed from the SPEC (never by serialising a sylvia type). Histories of 3-12 calls with arbitrary arguments, senders (incl. non-admins), unaffordable funds, nested scripted calls and failures, block jumps. After every step: addresses, AppResponse events and data, query values, handler entries with arguments and context, helper builds, full raw storage of every contract, contract info (code id, admin, label, creator) and all balances must agree; a handler error on R must surface on P as the contract's error type with the same value; a proxy must not panic where R returns an error. Exploration level.",
+        ref="DESIGN.md section 4 C12",
+        note="Empty-custom chain only; 13 dispatch-family programs with regular names; the label used when none is set is mirrored, not asserted",
+    ),
     "C07": dict(
         text="Seeded simulation of worlds of reply-table contracts (every coverage shape, declaration order, payload signature; 12 programs) calling each other through sub-messages whose callee is told to succeed or fail; gas_used/events/msg_responses injected at the link; hand-made sub-messages with unknown ids and uncovered outcomes. Per reply delivery the monitor requires exactly the declared method (or the pass-through / unknown-id behaviour) with the delivered context values. Exploration: a clean batch is evidence over the sampled histories, not proof.",
         ref="DESIGN.md section 4 C07",
@@ -56,7 +61,6 @@ PENDING = {
     "C06": "check under construction in this session (entry-point twin world); not claimed until it runs clean",
     "C10": "check under construction in this session (remote helpers across contracts); not claimed until it runs clean",
     "C11": "check under construction in this session (custom chain bridge); not claimed until it runs clean",
-    "C12": "check under construction in this session (proxy vs raw twin chains); not claimed until it runs clean",
     "C20": "check under construction in this session (stored remote handle across migrations); not claimed until it runs clean",
 }
 
